@@ -1,7 +1,84 @@
-(* C08 placeholder during construction: theorems are added in Proofs/GaussProofs.v *)
-From PD Require Import Base.Field Base.Matrix.
-Theorem C08_mmul_assoc :
-  forall (F : Type) (H : FieldOps F) (FL : FieldLaws F) n k l m (A B C : @mat F),
-    mmul n l m (mmul n k l A B) C = mmul n k m A (mmul k l m B C).
-Proof. intros. apply mmul_assoc. Qed.
-Print Assumptions C08_mmul_assoc.
+(* C08 -- Gaussian conditional algebra is exact in every factorisation.
+   Model/Gauss.v: conditionals  y | x ~ N( to*(A (tl*x) + b), to Q to )  with
+   diagonal input/output scalings tl, to, at covariance (Gram) level; one generic
+   block covers dense (N x 1 means), isotropic (N x d means, shared covariance)
+   and each block of the block-diagonal model.  All statements hold over an
+   arbitrary field, for all shapes, all matrices (any lists), all scalings. *)
+From Coq Require Import List Arith.
+From PD Require Import Base.Field Base.Matrix Base.Solve Model.Gauss Spec.RTS
+  Proofs.GaussProofs Proofs.FilterProofs.
+Import ListNotations.
+
+Section C08.
+  Context {F : Type} `{FL : FieldLaws F}.
+
+  (* application to a point = application of the plain (preconditioner_apply) conditional *)
+  Theorem C08_apply_equals_plain_formula :
+    forall nin nout c (K : @cond F) (x : @mat F),
+      c_apply nin nout c K x = c_apply nin nout c (c_plain nin nout c K) x.
+  Proof. exact c_apply_plain. Qed.
+
+  (* marginalisation = marginalisation through the plain conditional ... *)
+  Theorem C08_marginalise_equals_plain_formula :
+    forall nin nout c (K : @cond F) (rv : @normal F),
+      c_marg nin nout c K rv = c_marg nin nout c (c_plain nin nout c K) rv.
+  Proof. exact c_marg_plain. Qed.
+
+  (* ... which is the dense formula  (A m + b,  A P A^T + Q) *)
+  Theorem C08_marginalise_is_dense_formula :
+    forall n c (K : @cond F) (rv : @normal F),
+      c_marg n n c K rv
+      = let P := c_plain n n c K in kf_predict n c (c_A P) (c_b P) (c_Q P) rv.
+  Proof. exact c_marg_is_kalman_prediction. Qed.
+
+  (* composition: marginalising through merge(K1,K2) = through K2 then K1 *)
+  Theorem C08_merge_is_composition :
+    forall nin nmid nout c (K1 K2 : @cond F) (rv : @normal F),
+      c_marg nin nout c (c_merge nin nmid nout c K1 K2) rv
+      = c_marg nmid nout c K1 (c_marg nin nmid c K2 rv).
+  Proof. exact c_merge_is_composition. Qed.
+
+  (* reversal: marginal of y ... *)
+  Theorem C08_revert_observed_is_marginal :
+    forall inv nin nout c (K : @cond F) (rv obs : @normal F) bw,
+      c_revert inv nin nout c K rv = Some (obs, bw) -> obs = c_marg nin nout c K rv.
+  Proof. exact c_revert_observed_is_marginal. Qed.
+
+  (* ... together with x | y reproduces the law of x (any, also singular,
+     covariances; any inverse oracle) ... *)
+  Theorem C08_revert_reproduces_prior :
+    forall inv nin nout c (K : @cond F) (rv obs : @normal F) bw,
+      (forall i, i < nin -> vget (c_tl K) i <> f0) ->
+      (forall i, i < nout -> vget (c_to K) i <> f0) ->
+      c_revert inv nin nout c K rv = Some (obs, bw) ->
+      c_marg nout nin c bw obs
+      = mkN (canon nin c (n_mean rv)) (canon nin nin (n_cov rv)).
+  Proof. exact c_revert_reproduces_prior. Qed.
+
+  (* ... and the gain satisfies  G S = P A^T  (cross-covariance), with the
+     certified inverse *)
+  Theorem C08_revert_gain_equation :
+    forall nin nout c (K : @cond F) (rv obs : @normal F) bw,
+      c_revert minv nin nout c K rv = Some (obs, bw) ->
+      let P' := dsand nin (c_tl K) (n_cov rv) in
+      let S := madd nout nout (sandwich nout nin (c_A K) P') (c_Q K) in
+      mmul nin nout nout (c_A bw) S
+      = mtr nout nin (mmul nout nin nin (c_A K) P').
+  Proof. exact c_revert_gain_equation. Qed.
+
+  (* the certified inverse returns a two-sided inverse or nothing *)
+  Theorem C08_certified_inverse :
+    forall n (A X : @mat F),
+      minv n A = Some X ->
+      X = canon n n X /\ mmul n n n A X = mid n /\ mmul n n n X A = mid n.
+  Proof. exact minv_spec. Qed.
+End C08.
+
+Print Assumptions C08_apply_equals_plain_formula.
+Print Assumptions C08_marginalise_equals_plain_formula.
+Print Assumptions C08_marginalise_is_dense_formula.
+Print Assumptions C08_merge_is_composition.
+Print Assumptions C08_revert_observed_is_marginal.
+Print Assumptions C08_revert_reproduces_prior.
+Print Assumptions C08_revert_gain_equation.
+Print Assumptions C08_certified_inverse.
